@@ -139,7 +139,7 @@ class _PatchingASTWalker:
                 start = token_start
             if self.children:
                 children.append(child)
-        start = self._handle_parens(children, start, formats)
+        start = self._handle_parens(children, start, formats, suspected_start)
         if eat_parens:
             start = self._eat_surrounding_parens(children, suspected_start, start)
         if eat_spaces:
@@ -155,7 +155,7 @@ class _PatchingASTWalker:
         node.region = (start, self.source.offset)
         self.children_stack.pop()
 
-    def _handle_parens(self, children, start, formats):
+    def _handle_parens(self, children, start, formats, suspected_start=0):
         """Changes `children` and returns new start"""
         opens, closes = self._count_needed_parens(formats)
         old_end = self.source.offset
@@ -166,7 +166,13 @@ class _PatchingASTWalker:
             children.append(self.source[old_end:new_end])
         new_start = start
         for i in range(opens):
-            new_start = self.source.rfind_token("(", 0, new_start)
+            # the parentheses of this node cannot start before the cursor at
+            # which the node was entered; searching (and testing for comments)
+            # from the beginning of the file finds a "#" inside earlier strings
+            index = self.source.rfind_token("(", suspected_start, new_start)
+            if index is None:
+                break
+            new_start = index
         if new_start != start:
             if self.children:
                 children.appendleft(self.source[new_start:start])
